@@ -57,7 +57,7 @@ def first_cmds(spec):
     holds = [('hold', {'tasks': [i]}) for i in insts]
     hp = [('set_hold_point', {'point': '1'})]
     future = [('hold', {'tasks': [i]}) for i in insts
-              if not i.startswith('1/')]
+              if not i.startswith('1/')][:1]
     return {'hold': holds, 'hp': hp, 'all': holds + hp,
             'future': future}[spec['first']]
 
